@@ -494,6 +494,7 @@ def run(ctx):
         npaths += cache_replay(ctx, hname, hh, 4 if thorough else 3)
     nshape = shape_table(ctx, [1, 2, 3], 2)
     nrej = rejections(ctx)
+    ctx.replayed = ne + npaths + nshape
     ctx.notes.update(expression_trees_enumerated=nn_, expression_trees_replayed=ne, instantiation_histories_replayed=npaths,
                      shape_cases=nshape, rejection_cases=nrej)
     ctx.exhaustive = thorough
